@@ -305,7 +305,12 @@ func checkDecodeTotal(c *enumx.Ctx, desc func() string, b []byte) {
 		// may not depend on where the bytes live
 		if g := c13Guard(); g != nil && len(b) <= g.Cap() {
 			want, werr := rule.ToCommandLine(rule.WireFormat(b), false)
-			for pi, pl := range [][]byte{g.AtEnd(b), g.AtStart(b)} {
+			for pi := 0; pi < 2; pi++ {
+				// one placement at a time: for inputs above half the region the two placements overlap
+				pl := g.AtEnd(b)
+				if pi == 1 {
+					pl = g.AtStart(b)
+				}
 				debug.SetPanicOnFault(true)
 				got, gerr := rule.ToCommandLine(rule.WireFormat(pl), false)
 				if got != want || (gerr == nil) != (werr == nil) {
@@ -584,7 +589,53 @@ func c13SmallValues(c *enumx.Ctx) {
 	c.Sample("ToCommandLine(rule with field[0]=AUDIT_FIELD_COMPARE(111) value[0]=26) must be text or an error")
 }
 
+// c13RuleSpecs: the whole structural rule domain of C06 (every list/action/key arrangement, field x operator x
+// value, orderings, field counts, syscall sets ...) under the totality oracle: Parse and Build answer with a value
+// or an error, never a panic, and what Build produced ToCommandLine takes without a panic.
+func c13RuleSpecs(c *enumx.Ctx) {
+	forRuleSpecs(c, func(c *enumx.Ctx, s spec) {
+		line := s.line()
+		c.Begin(func() string { return "Parse+Build(" + strconv.Quote(trunc(line)) + ")" })
+		c.Try("C13 Parse+Build", func() {
+			r, err := flags.Parse(line)
+			if (r == nil) == (err == nil) {
+				c.Report("C13 parse-value-xor-error", fmt.Sprintf("flags.Parse(%q) = (%v, %v)", trunc(line), r, err), nil)
+				return
+			}
+			if err != nil {
+				return
+			}
+			w, err := rule.Build(r)
+			if (w == nil) == (err == nil) {
+				c.Report("C13 build-value-xor-error", fmt.Sprintf("Build(Parse(%q)) = (%d bytes, %v)", trunc(line), len(w), err), nil)
+				return
+			}
+			if err == nil {
+				txt, derr := rule.ToCommandLine(w, false)
+				if derr != nil && txt != "" {
+					c.Report("C13 decode-value-xor-error", fmt.Sprintf("ToCommandLine(Build(%q)) = (%q, %v)", trunc(line), txt, derr), nil)
+					return
+				}
+			}
+			c.Nontrivial()
+		})
+	})
+	// rules with a LOT of string data in total (up to 64 strings of up to 4096 bytes): decoding what Build made
+	for i, l := range bigRuleLines() {
+		if !c.Mine() {
+			continue
+		}
+		_, w, err := build(l)
+		if err != nil {
+			continue
+		}
+		i := i
+		checkDecodeTotal(c, func() string { return fmt.Sprintf("big rule %d (%d bytes)", i, len(w)) }, w)
+	}
+}
+
 func init() {
+	gens["c13-rulespecs"] = c13RuleSpecs
 	gens["c13-smallvalues"] = c13SmallValues
 	gens["c13-structs"] = c13Structs
 	gens["c13-bytes"] = c13Bytes
